@@ -15,7 +15,9 @@ RULE = ("Hypothesis draws TT specs (d 2..6(8), mode sizes 1..5 incl. forced size
         "ragged/over_ranked, value families smallint/dyadic/float/gauss/scaled/rank_deficient/zero/explicit), index "
         "batches, weight vectors, number operands and typed expression trees; oracle = independent dense NumPy algebra "
         "with the abs-majorant rounding bound (exact equality for small-integer cores). Non-trivial = some bond rank >= 2, "
-        "or a number operand, or a program with >= 2 operators; distinct by SHA-1 of the case.")
+        "or a number operand, or a program with >= 2 operators; distinct by SHA-1 of the case. Sub-check large_d: d 20..70 (120), up to 1e70 elements, "
+        "gauss / positive / small-integer cores, chain-shared core objects, and count tensors (entries 0..3) kept in int64 / int32 arrays whose entries and "
+        "squared norm pass 2^63; references are chains of small float matrix products; non-trivial there = at least 2^63 elements.")
 TOLERANCES = "|got-ref| <= 32*(d+sum r+max n)*eps*E(|cores|) elementwise; == for smallint cores; accuracy via interval bounds on both Gram values"
 ASSUMPTIONS = ["d >= 2 (library-wide precondition)", "NumPy/LAPACK reference arithmetic is correct",
                "number operands go through const() (d-th root) and are not claimed bit-exact"]
@@ -436,7 +438,7 @@ def large_cases(draw, tier):
         # chain-referenced tensor: the SAME ndarray object at every interior position (a caller building [A] + [B]*(d-2) + [C])
         n = [n[0]] * d
         r = [1] + [r[1]] * (d - 1) + [1]
-    return {"n": n, "r": r, "seed": draw(gen.seeds), "fam": draw(st.sampled_from(["gauss", "smallint", "positive"])), "shared": shared,
+    return {"n": n, "r": r, "seed": draw(gen.seeds), "fam": draw(st.sampled_from(["gauss", "smallint", "positive", "counts"])), "shared": shared, "store": draw(st.sampled_from(["int64", "int64", "int32"])),
             "jrep": draw(st.integers(1, d - 2)), "I": [[draw(st.integers(0, k - 1)) for k in n] for _ in range(4)],
             "c": draw(st.sampled_from([2.5, -1.0, 0.5, 3]))}
 
@@ -460,6 +462,8 @@ def prop_large(case, ctx):
             sh = (r[k], n[k], r[k + 1])
             if case["fam"] == "smallint":
                 G = rng.integers(-1, 2, size=sh).astype(float)
+            elif case["fam"] == "counts":
+                G = rng.integers(0, 4, size=sh).astype(float)
             elif case["fam"] == "positive":
                 G = rng.uniform(0.5, 1.5, size=sh) / (n[k] * max(r[k], 1)) * 1.7
             else:
@@ -473,6 +477,11 @@ def prop_large(case, ctx):
         Y2 = list(Y)                                  # shares every core object with Y ...
         Y2[case["jrep"]] = B * 1.25 + 0.125           # ... except one perturbed core inside the run
         ctx.label("shared_core_objects")
+    # what the library is given: for the counts family the cores are kept in integer arrays (same denoted tensor; entries and sums of it pass 2^63)
+    store = case.get("store") if case["fam"] == "counts" and not case.get("shared") else None
+    YL, Y2L = ([G.astype(store) for G in Y], [G.astype(store) for G in Y2]) if store else (Y, Y2)
+    if store:
+        ctx.label("stored_as:" + store)
     nelem = 1
     for k in n:
         nelem *= k
@@ -491,35 +500,35 @@ def prop_large(case, ctx):
 
     S = [G.sum(axis=1) for G in Y]
     Sa = [np.abs(G).sum(axis=1) for G in Y]
-    cmp(ctx.lib(teneva.sum, Y), S, Sa, "sum (huge tensor)", ex)
-    cmp(ctx.lib(teneva.mean, Y), [M / k for M, k in zip(S, n)], [M / k for M, k in zip(Sa, n)], "mean (huge tensor)")
+    cmp(ctx.lib(teneva.sum, YL), S, Sa, "sum (huge tensor)", ex)
+    cmp(ctx.lib(teneva.mean, YL), [M / k for M, k in zip(S, n)], [M / k for M, k in zip(Sa, n)], "mean (huge tensor)")
     P = [rng.uniform(0, 1, size=k) for k in n]
-    cmp(ctx.lib(teneva.mean, Y, [p.tolist() for p in P]), [np.einsum('aib,i->ab', G, p) for G, p in zip(Y, P)],
+    cmp(ctx.lib(teneva.mean, YL, [p.tolist() for p in P]), [np.einsum('aib,i->ab', G, p) for G, p in zip(Y, P)],
         [np.einsum('aib,i->ab', np.abs(G), p) for G, p in zip(Y, P)], "mean(P) (huge tensor)")
     for i in case["I"]:
-        cmp(ctx.lib(teneva.get, Y, i), [G[:, ik, :] for G, ik in zip(Y, i)], [np.abs(G[:, ik, :]) for G, ik in zip(Y, i)], "get (huge tensor)", ex)
+        cmp(ctx.lib(teneva.get, YL, i), [G[:, ik, :] for G, ik in zip(Y, i)], [np.abs(G[:, ik, :]) for G, ik in zip(Y, i)], "get (huge tensor)", ex)
     Iarr = np.array(case["I"], dtype=int)
-    got = ctx.lib(teneva.get_many, Y, Iarr)
+    got = ctx.lib(teneva.get_many, YL, Iarr)
     for j, i in enumerate(case["I"]):
         cmp(got[j], [G[:, ik, :] for G, ik in zip(Y, i)], [np.abs(G[:, ik, :]) for G, ik in zip(Y, i)], "get_many (huge tensor)", ex)
     kr = lambda A, B: np.einsum('aib,cid->acbd', A, B).reshape(A.shape[0] * B.shape[0], A.shape[2] * B.shape[2])
-    cmp(ctx.lib(teneva.mul_scalar, Y, Y2), [kr(A, B) for A, B in zip(Y, Y2)], [kr(np.abs(A), np.abs(B)) for A, B in zip(Y, Y2)], "mul_scalar (huge tensor)", ex)
-    cmp(ctx.lib(teneva.mul_scalar, Y2, Y), [kr(A, B) for A, B in zip(Y2, Y)], [kr(np.abs(A), np.abs(B)) for A, B in zip(Y2, Y)], "mul_scalar (huge tensor, swapped)", ex)
-    nr = ctx.lib(teneva.norm, Y)
+    cmp(ctx.lib(teneva.mul_scalar, YL, Y2L), [kr(A, B) for A, B in zip(Y, Y2)], [kr(np.abs(A), np.abs(B)) for A, B in zip(Y, Y2)], "mul_scalar (huge tensor)", ex)
+    cmp(ctx.lib(teneva.mul_scalar, Y2L, YL), [kr(A, B) for A, B in zip(Y2, Y)], [kr(np.abs(A), np.abs(B)) for A, B in zip(Y2, Y)], "mul_scalar (huge tensor, swapped)", ex)
+    nr = ctx.lib(teneva.norm, YL)
     g = chain([kr(A, A) for A in Y]); ga = chain([kr(np.abs(A), np.abs(A)) for A in Y])
     ctx.check(math.sqrt(max(g - K * EPS * ga, 0.0)) * (1 - 1e-12) <= nr <= math.sqrt(g + K * EPS * ga) * (1 + 1e-12), "norm (huge tensor)", got=float(nr), ref=math.sqrt(max(g, 0.0)))
-    ctx.check(list(map(int, ctx.lib(teneva.shape, Y))) == n and list(map(int, ctx.lib(teneva.ranks, Y))) == r, "shape / ranks (huge tensor)")
-    ctx.check(int(ctx.lib(teneva.size, Y)) == sum(G.size for G in Y), "size (huge tensor)")
-    er = float(ctx.lib(teneva.erank, Y))
+    ctx.check(list(map(int, ctx.lib(teneva.shape, YL))) == n and list(map(int, ctx.lib(teneva.ranks, YL))) == r, "shape / ranks (huge tensor)")
+    ctx.check(int(ctx.lib(teneva.size, YL)) == sum(G.size for G in Y), "size (huge tensor)")
+    er = float(ctx.lib(teneva.erank, YL))
     params = sum(n[k] * r[k] * r[k + 1] for k in range(d))
     lhs = n[0] * er + sum(n[1:d - 1]) * er ** 2 + n[d - 1] * er
     ctx.check(abs(lhs - params) <= 1e-9 * params, "erank (huge tensor)", got=er)
     # algebra results, evaluated entrywise
     c = case["c"]
-    for name, Z, f in (("add", ctx.lib(teneva.add, Y, Y2), lambda a, b: a + b), ("sub", ctx.lib(teneva.sub, Y, Y2), lambda a, b: a - b),
-                       ("mul", ctx.lib(teneva.mul, Y, Y2), lambda a, b: a * b), ("add(T,c)", ctx.lib(teneva.add, Y, c), lambda a, b: a + c),
-                       ("mul(T,c)", ctx.lib(teneva.mul, Y, c), lambda a, b: a * c), ("sub(c,T)", ctx.lib(teneva.sub, c, Y), lambda a, b: c - a)):
-        why = oracle.wellformed(Z, n, finite=False)
+    for name, Z, f in (("add", ctx.lib(teneva.add, YL, Y2L), lambda a, b: a + b), ("sub", ctx.lib(teneva.sub, YL, Y2L), lambda a, b: a - b),
+                       ("mul", ctx.lib(teneva.mul, YL, Y2L), lambda a, b: a * b), ("add(T,c)", ctx.lib(teneva.add, YL, c), lambda a, b: a + c),
+                       ("mul(T,c)", ctx.lib(teneva.mul, YL, c), lambda a, b: a * c), ("sub(c,T)", ctx.lib(teneva.sub, c, YL), lambda a, b: c - a)):
+        why = oracle.wellformed(Z, n, finite=False, int_ok=bool(store))
         ctx.check(why is None, f"{name} (huge tensor): {why}")
         vals = ctx.lib(teneva.get_many, Z, Iarr)
         for j, i in enumerate(case["I"]):
